@@ -113,20 +113,33 @@ def sub_id(g, j):
     return 100 * (g + 1) + j
 
 
-def sub_name(g, j):
-    return '%s:x%d' % (tname(g), j)
+# names of the sub-tasks of a group, by style (`substyle` of the group definition).  Every name is legal for doit (only
+# '=' is forbidden); all names are distinct across styles so that a full task name identifies the sub-task index.
+SUB_STYLES = [['x0', 'x1'],
+              ['linux:x86', 'mac:x86'],          # ':' inside, same last segment
+              ['os:a b', 'os c:d:'],             # spaces, trailing ':'
+              ['\u00fc-[0]?', '[1]*\u00e9']]   # unicode, '[', '?', '*'
+SUBNAME_INDEX = {n: j for st in SUB_STYLES for j, n in enumerate(st)}
+
+
+def sub_suffix(style, j):
+    return SUB_STYLES[style or 0][j]
+
+
+def sub_name(g, j, style=0):
+    return '%s:%s' % (tname(g), sub_suffix(style, j))
 
 
 def name_to_id(name):
     if ':' in name:
-        g, x = name.split(':')
-        return sub_id(int(g[1:]), int(x[1:]))
+        g, x = name.split(':', 1)
+        return sub_id(int(g[1:]), SUBNAME_INDEX[x])
     return int(name[1:])
 
 
 def id_to_name(i):
     if i >= 100:
-        return sub_name(i // 100 - 1, i % 100)
+        return '%s:<sub-task %d>' % (tname(i // 100 - 1), i % 100)
     return tname(i)
 
 
@@ -140,6 +153,7 @@ def norm_def(d):
     d.setdefault('calc', [])          # calc_dep task ids
     d.setdefault('subs', 0)           # > 0: group task with that many sub-task producers
     d.setdefault('cmd', False)        # first action is a cmd-action echoing the substitutions
+    d.setdefault('substyle', 0)       # group only: index into SUB_STYLES (names of the sub-tasks)
     d.setdefault('kwform', None)      # 'varkw' | 'explicit': python-action given as (callable, [], shared kwargs dict)
     d.setdefault('delayed', None)     # group only: task id after whose execution the group is created (create_after)
     return d
@@ -234,9 +248,9 @@ class World(statuslib.World):
                 def gen(t=t, d=d):
                     for j in range(d['subs']):
                         if d['delayed'] is not None:
-                            yield {'name': 'x%d' % j, 'actions': [(delayed_effect, [str(sub_id(t, j))])]}
+                            yield {'name': sub_suffix(d['substyle'], j), 'actions': [(delayed_effect, [str(sub_id(t, j))])]}
                         else:
-                            yield {'name': 'x%d' % j, 'actions': [world._effect(str(sub_id(t, j)))]}
+                            yield {'name': sub_suffix(d['substyle'], j), 'actions': [world._effect(str(sub_id(t, j)))]}
                 if d['delayed'] is not None:
                     from doit import create_after
                     gen = create_after(executed=tname(d['delayed']), creates=[tname(t)])(gen)
@@ -270,7 +284,7 @@ def read_obs():
                     out[r['t']] = r
         os.remove(OBS_PY)
     if os.path.exists(OBS_CMD):
-        with open(OBS_CMD) as f:
+        with open(OBS_CMD, encoding='utf-8', errors='replace') as f:
             for line in f:
                 line = line.strip()
                 if not line:
@@ -432,12 +446,12 @@ def canon_leaf(v, key):
     return ['not-a-value', repr(v)]
 
 
-def canon_arg(v, src, key, subs):
+def canon_arg(v, src, key, subs, style=0):
     """observed getargs value -> the driver's format"""
     if subs:
         if not isinstance(v, dict):
             return ['not-a-dict', repr(v)]
-        names = {'x%d' % j: sub_id(src, j) for j in range(subs)}
+        names = {sub_suffix(style, j): sub_id(src, j) for j in range(subs)}
         out = []
         for k, x in v.items():
             if k in names:
@@ -468,6 +482,7 @@ class Translation(object):
         self.vals = []
         self.selects = []     # (model index, obs index, task, outcome, observed kw or None, always)
         self.sels = []        # (monitor index, obs index, task, observed kw)
+        self.get_names = {}   # vals index -> dict keys expected for a group source (harness side)
         self.gets = []        # (vals index, obs index, task, arg, src, key, subs, observed canonical value | ['error'])
         self.calc = []        # (obs index, task, expected dependencies (sorted) , observed, delivered tasks, order ok)
         self.completes = []   # (model index, obs index, task, outcome)
@@ -552,9 +567,15 @@ def translate(case, obs):
                         elif kw is None or a not in kw['args']:
                             seen = ['not-received']
                         else:
-                            seen = canon_arg(kw['args'][a], src, key, subs)
+                            seen = canon_arg(kw['args'][a], src, key, subs, defs[src]['substyle'])
                         tr.gets.append((len(tr.vals), i, tid, a, src, key, subs, seen))
-                        tr.vals.append(['get', [sub_id(src, j) for j in range(subs)] if subs else None, src, key])
+                        if subs:
+                            st_ = defs[src]['substyle']
+                            tr.get_names[len(tr.vals)] = [sub_suffix(st_, j) for j in range(subs)]
+                            tr.vals.append(['get', [sub_id(src, j) for j in range(subs)], src, key,
+                                            [tname(src), [sub_name(src, j, st_) for j in range(subs)]]])
+                        else:
+                            tr.vals.append(['get', None, src, key])
                 if oc == 'ok':
                     vid = pl.get('vid')
                     if pl.get('deliver') is not None:
@@ -778,6 +799,11 @@ def _judge(case, obs, tr, msteps, psteps, vsteps, v):
                     % (tname(t), okw['changed'], okw['dependencies'], okw['targets'], ps['deps'], ps['targets'],
                        ps['needs'], ', '.join('f%s: %s' % (p, c) for p, c in ps['classes']))})
     # ---- getargs: K (model) and P (spec)
+    # the key under which a sub-task's value is delivered: model (`subKey`: the group prefix is cut off) vs harness
+    for idx, names in sorted(tr.get_names.items()):
+        v.count('getargs:group-sub-task-names:' + ('plain' if names == SUB_STYLES[0] else 'odd (colon / space / unicode / brackets)'))
+        if vsteps[idx].get('keys') != names:
+            v.divergence = v.divergence or (0, 'keys of the dict delivered for a group source', names, vsteps[idx].get('keys'))
     # a consumer whose _get_task_args raised: the first failing entry ends the loop, so the statement is "some
     # entry has no value to deliver"
     failed = {}
@@ -883,7 +909,7 @@ def render(case):
             d = norm_def(op[2])
             bits = []
             if d['subs']:
-                bits.append('group of %d sub-task producers' % d['subs'] +
+                bits.append('group of %d sub-task producers %s' % (d['subs'], [sub_name(op[1], j, d['substyle']) for j in range(d['subs'])]) +
                             (' created by a delayed loader after %s' % tname(d['delayed']) if d['delayed'] is not None else ''))
             else:
                 bits.append('file_dep %s targets %s uptodate %s' % ([fname(p) for p in d['deps']], [fname(p) for p in d['targets']],
@@ -1011,7 +1037,7 @@ def gen_case(rng, parallel=False):
             d = {'deps': [rng.randrange(nsrc)] if kind < 0.45 else [],
                  'uptodate': [['const', True]] if 0.45 <= kind < 0.55 else []}
         elif r == 'group':
-            d = {'subs': 2}
+            d = {'subs': 2, 'substyle': rng.choice([0, 1, 1, 2, 3])}
             anchors = [u for u in range(t) if roles[u] in ('producer', 'calc')]
             if anchors and rng.random() < 0.45:
                 d['delayed'] = rng.choice(anchors)
